@@ -419,8 +419,9 @@ class DefaultPredictionStrategy(object):
             covar_correction_rhs = train_train_covar.solve(train_test_covar)
             # For efficiency
             if torch.is_tensor(test_test_covar):
-                # We can use addmm in the 2d case
-                if test_test_covar.dim() == 2:
+                # We can use addmm in the 2d case (the correction may carry batch dimensions that the prior does not have,
+                # e.g. those of a batched noise)
+                if test_test_covar.dim() == 2 and covar_correction_rhs.dim() == 2:
                     return to_linear_operator(
                         torch.addmm(test_test_covar, test_train_covar, covar_correction_rhs, beta=1, alpha=-1)
                     )
